@@ -269,10 +269,11 @@ func checkC11(e *Env) {
 		grp := x.grp
 		if x.role < 0 {
 			// the baseline spelling is additionally compared with the reference seed
+			// (whether the common value is the right one is C04's question; recorded only)
 			if want, ok := e.RefSeed(grp.bm, grp.bp); ok {
 				refChecked.Inc("baseline-vs-reference")
 				if hx(want) != r.Out {
-					e.Violate(&Violation{What: fmt.Sprintf("MnemonicToSeed(%s, %s) = %s, reference %x", preview(grp.bm), preview(grp.bp), r.Out, want), Ops: []plan.Op{it.Op}, Expected: map[string]string{"out_hex": hx(want)}, Observed: r})
+					refChecked.Inc("baselines_differing_from_the_reference(C04's business)")
 				}
 			}
 			mu.Lock()
@@ -310,9 +311,13 @@ func checkC11(e *Env) {
 				continue
 			}
 			if want := hx(ref.Seed([]byte(n[0]), []byte(n[1]))); res[i].Out != want {
-				e.Violate(&Violation{What: fmt.Sprintf("within a sequence of calls in one process MnemonicToSeed(%s, %s) = %s, reference %s", preview(op.Str()), preview(op.Pass()), res[i].Out, want),
-					Ops: ops[:i+1], Expected: map[string]string{"out_hex": want}, Observed: res[i], Detail: historyNote})
-				return
+				// a seed that differs from the reference AND from the same call run alone was
+				// influenced by an earlier spelling or call
+				if s := e.Solo(drv, *op); s.Died == "" && s.Out != res[i].Out {
+					e.Violate(&Violation{What: fmt.Sprintf("within a sequence of calls in one process MnemonicToSeed(%s, %s) = %s, but %s when the call is made alone: the seed depends on spellings seen earlier", preview(op.Str()), preview(op.Pass()), res[i].Out, s.Out),
+						Ops: ops[:i+1], Expected: map[string]string{"out_hex": s.Out}, Observed: res[i], Detail: historyNote})
+					return
+				}
 			}
 			key := n[0] + "\x00" + n[1]
 			j, seen := first[key]
@@ -330,7 +335,7 @@ func checkC11(e *Env) {
 	refChecked.Add("calls_inside_histories", histCalls)
 
 	// the concurrent flavour of this monitor (C12 is the full treatment)
-	concCalls := e.concurrentSmoke(drv, "C11", e.smokePool("C11", "seed"), e.pick(2, 12), e.pick(25, 100))
+	concCalls := e.concurrentSmoke(drv, "C11", e.smokePool("C11", "seed"), e.pick(2, 12), e.pick(25, 100), e.smokeAgree("seed"))
 
 	// known-finding witnesses (D3): exact pairs listed in KNOWN_FINDINGS.txt
 	for _, f := range e.KnownKeys() {
